@@ -1,3 +1,5 @@
+#[cfg(mos_verif_threads)]
+use mos_simrt::std_shim as std;
 use crate::diagnostic_emitter::MosResult;
 use crate::impl_request_handler;
 use crate::lsp::{to_range, uri_to_path, LspContext, RequestHandler};
